@@ -507,7 +507,82 @@ class Totality:
         for fid, a in self.fa.items():
             for (bi, tgt, args, line) in a.calls:
                 self.callers.setdefault(tgt["id"], []).append((a, bi, args, line))
+        self.refine_private()
         self.propagate()
+
+    def _address_taken(self):
+        out = set()
+
+        def scan(o):
+            if isinstance(o, list):
+                if len(o) >= 2 and o[0] == "fn" and isinstance(o[1], dict) and "id" in o[1]:
+                    out.add(o[1]["id"])
+                for x in o:
+                    scan(x)
+        for fn in self.f.fns.values():
+            for b in fn["blocks"]:
+                for st in b["s"]:
+                    scan(st)
+                t = b["t"]
+                if t[0] == "call":
+                    scan(t[2])
+        return out
+
+    def refine_private(self):
+        """Top-down parameter facts for private functions: a function that is not externally reachable, is never used as
+        a value, and still has undischarged obligations is re-analysed under the join, over all its (live) call sites,
+        of the argument facts: length interval of each slice argument, value interval of each unsigned integer argument.
+        (`fn chunk_helper(chunk: &mut [T])` called with `&mut xx[i..i + blen]`, 1 <= blen <= 200.)"""
+        taken = self._address_taken()
+        for _round in range(3):
+            changed = False
+            for fid in list(self.fa.keys()):
+                a = self.fa[fid]
+                fn = a.fn
+                if fn.get("reach") or fid in taken or not self.callers.get(fid) or fn["kind"] == "Closure":
+                    continue
+                if not any(s.status in ("open", "req") for s in a.sites):
+                    continue
+                plen, pval = {}, {}
+                ok = True
+                for p_ in range(1, fn["argc"] + 1):
+                    td = self.f.ty(fn["locals"][p_][0])
+                    is_slice = td.get("k") in ("ref", "ptr") and self.f.ty(td["to"]).get("k") == "slice"
+                    is_uint = td.get("k") == "uint"
+                    if not (is_slice or is_uint):
+                        continue
+                    acc = None
+                    for (ca, bi, args, line) in self.callers[fid]:
+                        if bi not in ca.live_blocks() or p_ - 1 >= len(args):
+                            continue
+                        if is_slice:
+                            L = ca.slice_lenval(args[p_ - 1], bi)
+                            iv = (L.lo, L.hi)
+                        else:
+                            iv = ca.ev.at_block(bi).op_ival(args[p_ - 1], bi)
+                            if iv is None:
+                                acc = None
+                                break
+                        acc = iv if acc is None else (min(acc[0], iv[0]), max(acc[1], iv[1]))
+                    if acc is None:
+                        continue
+                    if is_slice and (acc[0] > 0 or acc[1] != INF):
+                        plen[p_] = acc
+                    elif is_uint and (acc[0] > 0 or acc[1] < (1 << 62)):
+                        pval[p_] = acc
+                if (plen or pval) and (plen != a.ev.param_len or pval != a.ev.param_val):
+                    na = FnTotality(self.f, fn, self.ctx)
+                    na.ev.param_len = plen
+                    na.ev.param_val = pval
+                    na.analyse()
+                    self.fa[fid] = na
+                    changed = True
+            if not changed:
+                break
+            self.callers = {}
+            for fid, a in self.fa.items():
+                for (bi, tgt, args, line) in a.calls:
+                    self.callers.setdefault(tgt["id"], []).append((a, bi, args, line))
 
     def propagate(self):
         """Requirements on parameter slice lengths: discharge at callers or propagate upwards."""
